@@ -12,6 +12,19 @@
 From Isobar Require Import Base.Prelude Sched.Model Sched.SrcGlue Generated.TablesTrack Sched.ModelSrc.
 Local Open Scope Z_scope.
 
+(* Track.perform_event: the guards `if not event.active: return`, `if self.is_muted: return`, the dispatch on event.type and
+   the control / program-change branches are the source's; the action and note branches are SrcGlue.v's (= the model's) *)
+Theorem src_track_perform_event_is fail nowT tr e n : src_track_perform_event fail nowT tr e n = perform_event fail nowT tr e n.
+Proof.
+  unfold src_track_perform_event, perform_event, perform_note, perform_action.
+  destruct (e_active e); cbn [negb]; [|reflexivity]. destruct (t_muted tr); [reflexivity|].
+  destruct (e_kind e) as [vs|cb|c v ch|p ch].
+  - destruct (perform_voices fail nowT (t_cur tr) vs n (t_offs tr) []) as [[[offs calls] n'] ok]. reflexivity.
+  - reflexivity.
+  - destruct (dev_emit fail n); reflexivity.
+  - destruct (dev_emit fail n); reflexivity.
+Qed.
+
 Lemma src_track_tick_loop_is : forall fuel tr last, src_track_tick_loop fuel tr last = pull_loop fuel tr last.
 Proof.
   induction fuel as [|f IH]; intros tr last; cbn [src_track_tick_loop pull_loop]; [reflexivity|].
@@ -24,6 +37,7 @@ Proof.
   unfold src_track_tick_a, track_tick_a. destruct (t_started tr); cbn [negb]; [|reflexivity].
   destruct (t_next tr <=? t_cur tr); [|reflexivity].
   rewrite src_track_tick_loop_is. destruct (pull_loop (fuel cfg) tr None) as [[[e|]| | |] tr']; try reflexivity.
+  rewrite src_track_perform_event_is.
   destruct (perform_event (dev_fail cfg) nowT tr' e n) as [[[tr'' c] n'] pf]. destruct pf; reflexivity.
 Qed.
 
@@ -34,5 +48,6 @@ Proof. unfold src_track_tick_b, track_tick_b. destruct st; [|reflexivity]. destr
 Lemma obj_tick_not_started cfg tl tr : t_started tr = false -> obj_tick cfg tl tr = (set_dev (upd_track tl tr) (dev_calls tl), [], TickOk, tr).
 Proof. intros H. unfold obj_tick, track_tick_a. rewrite H. reflexivity. Qed.
 
+Print Assumptions src_track_perform_event_is.
 Print Assumptions src_track_tick_a_is.
 Print Assumptions src_track_tick_b_is.
